@@ -220,6 +220,18 @@ func (w *World) fetch(nd *Node, hash hotstuff.Hash) (*hotstuff.Block, bool) {
 			w.fault("attack:fetch-unanswered")
 			continue // the attacker does not serve blocks
 		}
+		if w.adv != nil && peer.byz != nil && w.plan.knob("nobatch", 0) == 1 {
+			if b := w.adv.crafted[hash]; b != nil {
+				// a Byzantine replica serves a block the adversary made up: the reply is what was asked for
+				buf, _ := proto.Marshal(hotstuffpb.BlockToProto(b))
+				cp := &hotstuffpb.Block{}
+				if proto.Unmarshal(buf, cp) == nil {
+					replies[uint32(peer.id)] = cp
+					w.fault("made-up-block-served")
+					continue
+				}
+			}
+		}
 		if w.adv != nil {
 			if pb := w.adv.onFetchMalformed(peer, nd, hash); pb != nil {
 				replies[uint32(peer.id)] = pb
